@@ -14,12 +14,12 @@ NEEDS_CIRCLE = {"circ"}
 
 
 def ff_variants(tier, include_rm=True):
-    ids = [l for l in LINK_IDS if include_rm or l != "rm"]
+    ids = [l for l in LINK_IDS if include_rm or l not in ("rm", "rm0")]
     out = [dict(links=[])]
     out += [dict(links=[a]) for a in ids]
     # every unordered pair; both orders where the order of definition can matter (same interaction defined twice,
     # vetoes / removals that look at what earlier links did)
-    order_sensitive = {"bb", "bbA", "repl", "ver2", "nonedge", "rm", "partial", "startpatch"}
+    order_sensitive = {"bb", "bbA", "repl", "ver2", "nonedge", "rm", "rm0", "partial", "startpatch"}
     for a, b in itertools.combinations(ids, 2):
         out.append(dict(links=[a, b]))
         if (a in order_sensitive and b in order_sensitive) or tier == "thorough":
